@@ -43,7 +43,7 @@ static const char *vs_opname[] = {"none", "start", "lock", "trylock", "unlock", 
                                   "create", "join", "atomic", "point", "woken", "finish"};
 enum { VST_UNUSED, VST_READY, VST_BLOCKED, VST_EXITED };
 
-#define VS_MAX_OBJ 64
+#define VS_MAX_OBJ 512
 struct vs_mutex {
     pthread_mutex_t *addr;
     int owner; /* -1 free */
@@ -236,6 +236,13 @@ static struct vs_mutex *vs_mutex_of(pthread_mutex_t *a) {
             return &vs_M[i];
         }
     }
+    for (int i = 0; i < vs_nm; ++i) {
+        if (vs_M[i].addr == NULL) { /* slot of a destroyed mutex */
+            vs_M[i].addr = a;
+            vs_M[i].owner = -1;
+            return &vs_M[i];
+        }
+    }
     if (vs_nm >= VS_MAX_OBJ) {
         fprintf(stderr, "vsched: too many mutexes\n");
         abort();
@@ -247,6 +254,13 @@ static struct vs_mutex *vs_mutex_of(pthread_mutex_t *a) {
 static struct vs_cond *vs_cond_of(pthread_cond_t *a) {
     for (int i = 0; i < vs_nc; ++i) {
         if (vs_C[i].addr == a) {
+            return &vs_C[i];
+        }
+    }
+    for (int i = 0; i < vs_nc; ++i) {
+        if (vs_C[i].addr == NULL) {
+            vs_C[i].addr = a;
+            vs_C[i].nw = 0;
             return &vs_C[i];
         }
     }
@@ -428,7 +442,16 @@ static void vs_schedule(void) {
         }
         vs_apply(next);
         if (++vs_nsteps > vs_step_cap) {
-            vs_fatal_event("StepCap");
+            /* If no other thread can ever run again (all others exited or blocked without a deadline), a thread that
+             * has made 20000 synchronisation steps is spinning on a condition nobody can change: a livelock, i.e. a
+             * hang of the real program as well. Otherwise the cap only bounds the exploration (inconclusive). */
+            bool others = false;
+            for (int i = 0; i < vs_nthreads; ++i) {
+                if (i != c && (vs_enabled(&vs_T[i]) || (vs_T[i].state == VST_BLOCKED && vs_T[i].timed))) {
+                    others = true;
+                }
+            }
+            vs_fatal_event(others ? "StepCap" : "Deadlock");
         }
         break;
     }
